@@ -666,6 +666,11 @@ package ristretto
 //@   loop 1 invariant [C13] #charged charged(c)
 //@   at call Del#3 assume [hypothesis] #no-collision !smHas(cacheSM(c), i.Key) || conflictOK(smEntry(cacheSM(c), i.Key), i.Conflict)
 //@   at call close#1 assume [hypothesis] #marker-open !gcClosed(i.wait) && i.wait != c.done && i.wait != c.stop
+//@   at call Add#1 mark beforeAdd
+//@   at call Add#1 assume [hypothesis] #distinct-wrappers !gcSameRef(c.onEvict, c.onReject)
+//@   at call Set#* assert [C04,C13] #stored-only-if-admitted added
+//@   at call onReject#* assert [C04] #rejected-only-if-not-admitted !added && gcCalls(c.onReject) == oldat("beforeAdd", gcCalls(c.onReject))
+//@   loop 2 invariant [C04] #disposed added || gcCalls(c.onReject) == oldat("beforeAdd", gcCalls(c.onReject))+1
 //@   loop 2 modifies allmaps(cacheSM(c).shards[0].data), cacheSM(c).expiryMap.buckets[*][*], gcMtot[*], startTs[*]
 //@   loop 2 invariant #ok applierOK(c)
 //@   loop 2 invariant [C13] #victims-pending forall k uint64 :: smHas(cacheSM(c), k) ==> gcHas(c.cachePolicy.evict.keyCosts, k) || exists j int :: rangeindex < j && j < len(victims) && victims[j].Key == k
